@@ -1911,22 +1911,20 @@ impl StorageEngine {
                 Value::String(bytes) => {
                     let len = bytes.len() as isize;
                     
-                    let start = if start < 0 {
-                        std::cmp::max(0, len + start) as usize
-                    } else {
-                        start as usize
-                    };
-                    
-                    let end = if end < 0 {
-                        std::cmp::max(-1, len + end) as usize
-                    } else {
-                        std::cmp::min(end as usize, len as usize - 1)
-                    };
-                    
-                    if start > end || start >= bytes.len() {
+                    // Redis semantics: negative indexes count from the end and are
+                    // clamped at 0; the end is clamped to the last byte
+                    if len == 0 || (start < 0 && end < 0 && start > end) {
                         Vec::new()
                     } else {
-                        bytes[start..=end].to_vec()
+                        let start = if start < 0 { std::cmp::max(0, len.saturating_add(start)) } else { start };
+                        let end = if end < 0 { std::cmp::max(0, len.saturating_add(end)) } else { end };
+                        let end = std::cmp::min(end, len - 1);
+                        
+                        if start > end {
+                            Vec::new()
+                        } else {
+                            bytes[start as usize..=end as usize].to_vec()
+                        }
                     }
                 }
                 _ => return Err(StorageError::WrongType.into()),
